@@ -40,6 +40,14 @@ func fmtEntries(es []DocEntry) string { return string(mkDoc(es)) }
 
 // views checks clause (a) on one observation; op names the event that led to it (for the key).
 func views(o Obs, op string) (key, detail string) {
+	// a connection that did not authenticate is attributed to nobody, also when it is forwarded to the fallback address
+	if len(o.Forged) > 0 {
+		variant := strings.SplitN(o.Forged[0], ":", 2)[0]
+		if strings.Contains(o.Forged[0], "attributed to user") {
+			return "fallback-attributed-to-user:" + variant, o.Forged[0]
+		}
+		return "unauthenticated-connection-mishandled:" + variant, o.Forged[0]
+	}
 	owner := map[int][]string{}
 	for _, e := range o.Creds {
 		owner[e.Key.Id] = append(owner[e.Key.Id], e.Name)
